@@ -104,7 +104,7 @@ def noSeq : Ty → Bool
 
 /-- `v` is a value of the Rust type described by `ty` (what the generator draws and the theorem quantifies over).
     `utf8` is the validity test of `String`. A `&'de str` field can only borrow from the input, so it holds exactly the
-    strings whose encoding is the identity; variant names are compared unescaped by the reader, so they are identifiers. -/
+    strings whose encoding is the identity; variant names are any UTF-8 text (read back percent-decoded since fix ca4cc42). -/
 def wellTyped (utf8 : Bytes → Bool) : Ty → Value → Bool
   | .bool, .bool _ => true
   | .uint bits, .int z => 0 ≤ z && z < 2 ^ bits
@@ -119,7 +119,7 @@ def wellTyped (utf8 : Bytes → Bool) : Ty → Value → Bool
   | .seq t, .seq vs => noSeq t && wtAll utf8 t vs
   | .map .string vt, .map kvs => wtMap utf8 vt kvs
   | .struct fields, .struct fs => wtFields utf8 fields fs
-  | .unitEnum names, .variant n => names.contains n && Percent.encode n == n
+  | .unitEnum names, .variant n => names.contains n && utf8 n
   | _, _ => false
 where
   wtAll (utf8 : Bytes → Bool) (t : Ty) : List Value → Bool
